@@ -125,7 +125,10 @@ NoBlind(e) == <<e.t, e.key, e.nc, e.salt>>
 
 DetObl(e) == <<
   \* (a request made with a zero-length salt cannot be finalized: the PSS check expects the full salt length)
-  <<"det-run-ok", e.ok \/ (e.salt \in {"empty", "nil"} /\ e.req # "")>>,
+  \* (neither can a request made with the degenerate all-zero blind, wherever the library notices it)
+  <<"det-run-ok", e.ok \/ (e.salt \in {"empty", "nil"} /\ e.req # "") \/ e.degenerate>>,
+  \* whatever finalization returns verifies - under every blind, also the degenerate one
+  <<"no-invalid-token", ~e.bad_token>>,
   <<"create-is-pure", \A p \in reqTab : p[1] = Args(e) => p[2] = e.req>>,
   <<"blind-changes-request", \A p \in reqTab : (NoBlind([t |-> p[1][1], key |-> p[1][2], nc |-> p[1][3], salt |-> p[1][5]]) = NoBlind(e)
                                                 /\ p[1][4] # e.blind) => p[2] # e.req>>,
@@ -147,7 +150,10 @@ SeqRunObl(e) == <<
   <<"quiet", e.panic = "">>,
   <<"honest-completes", e.ok>>,
   <<"count", e.ok => e.count = e.n>>,
-  <<"token-verifies-under-pinned-key", e.ok => e.valid>> >>
+  <<"token-verifies-under-pinned-key", e.ok => e.valid>>,
+  \* a second finalization of the same response, after the caller has overwritten the tokens the first one returned
+  \* (its own values), again returns only tokens that verify
+  <<"retry-returns-valid-tokens", e.again_ok>> >>
 SeqRetainedObl(e) == <<
   <<"returned-tokens-keep-their-value", e.same /\ e.valid>> >>
 
